@@ -106,6 +106,7 @@ type Sim struct {
 	step       int
 	wg         sync.WaitGroup
 	pctChange  []int
+	GCSteps    []int // scheduler step after which each gc event fired
 	Overrun    bool  // MaxSteps exceeded: remaining tasks were run sequentially
 	InnerEvery []int // run-global inner point indices at which Point() yields (see Point)
 	innerCount int
@@ -115,8 +116,7 @@ type Sim struct {
 	Sig         uint64
 	SwitchPairs [MaxSites][MaxSites]bool
 	Tracing     bool
-	TraceSink   func(string) // optional: receives every trace line at once (race builds die mid-run)
-	Trace       []string
+	trace       []traceRec
 	SiteNames   []string
 	progress    atomic.Int64
 }
@@ -153,30 +153,42 @@ func (s *Sim) mix(v uint64) {
 //go:norace
 func (s *Sim) Mix(v uint64) { s.mix(v) }
 
-// Tracef appends a line to the trace when tracing. It never draws and never
-// synchronises visibly.
+type traceRec struct {
+	format string
+	args   []any
+}
+
+// Tracef records a trace line when tracing. Nothing is formatted here: fmt
+// keeps shared state behind a sync.Pool, and calling it from inside a task
+// would either add happens-before edges between tasks or, with those edges
+// hidden, show up as races inside fmt. Arguments must be plain values. The
+// lines are rendered by RenderTrace after the run. It never draws and never
+// synchronises.
 //
 //go:norace
 func (s *Sim) Tracef(format string, args ...any) {
 	if !s.Tracing {
 		return
 	}
-	raceDisable()
-	line := fmt.Sprintf(format, args...)
-	if s.TraceSink != nil {
-		s.TraceSink(line)
-	}
-	raceEnable()
-	n := len(s.Trace)
-	if n == cap(s.Trace) {
-		bigger := make([]string, n, 2*n+64)
+	n := len(s.trace)
+	if n == cap(s.trace) {
+		bigger := make([]traceRec, n, 2*n+64)
 		for i := 0; i < n; i++ {
-			bigger[i] = s.Trace[i]
+			bigger[i] = s.trace[i]
 		}
-		s.Trace = bigger
+		s.trace = bigger
 	}
-	s.Trace = s.Trace[:n+1]
-	s.Trace[n] = line
+	s.trace = s.trace[:n+1]
+	s.trace[n] = traceRec{format, args}
+}
+
+// RenderTrace formats the recorded trace; call it after Run has returned.
+func (s *Sim) RenderTrace() []string {
+	out := make([]string, len(s.trace))
+	for i, r := range s.trace {
+		out[i] = fmt.Sprintf(r.format, r.args...)
+	}
+	return out
 }
 
 // NoSync runs f with race-detector synchronisation events of this goroutine
